@@ -1,6 +1,7 @@
 package props
 
 import (
+	"bytes"
 	"fmt"
 	"strconv"
 	"strings"
@@ -15,6 +16,7 @@ import (
 	"verifharness/ast"
 	"verifharness/gen"
 	"verifharness/hx"
+	"verifharness/ref"
 	"verifharness/render"
 )
 
@@ -29,6 +31,26 @@ type rangeChecker struct {
 	lostDiagsOnly bool
 	// collect: only gather the ranges of the nodes that stand where an expression stands
 	collect *[]hcl.Range
+	// pt, tainted: reference positions and the lines on which some token boundary is not a
+	// grapheme-cluster boundary (columns are not comparable there: the property's caveat)
+	pt      *ref.PosTable
+	tainted map[int]bool
+}
+
+// pos compares a recorded position with the reference count.
+func (rc *rangeChecker) pos(p hcl.Pos, what string) {
+	if rc.pt == nil || rc.lostDiagsOnly || p.Byte < 0 || p.Byte > len(rc.src) {
+		return
+	}
+	if p.Line != rc.pt.Line[p.Byte]+1 {
+		rc.c.Failf("range-position", "%s: line %d recorded for byte %d, counting newlines gives %d", what, p.Line, p.Byte, rc.pt.Line[p.Byte]+1)
+	}
+	if rc.pt.Boundary[p.Byte] && rc.pt.ColOK[p.Byte] && !rc.tainted[rc.pt.Line[p.Byte]] {
+		rc.count["column"]++
+		if p.Column != rc.pt.Col[p.Byte]+1 {
+			rc.c.Failf("range-position", "%s: column %d recorded for byte %d (line %d), counting grapheme clusters gives %d", what, p.Column, p.Byte, p.Line, rc.pt.Col[p.Byte]+1)
+		}
+	}
 }
 
 func (rc *rangeChecker) failf(sig, format string, args ...any) {
@@ -45,6 +67,8 @@ func (rc *rangeChecker) slice(r hcl.Range, what string) (string, bool) {
 		}
 		rc.c.Failf("range-out-of-bounds", "%s: range %s is not within the source (len %d)", what, r, len(rc.src))
 	}
+	rc.pos(r.Start, what+" (start)")
+	rc.pos(r.End, what+" (end)")
 	return string(rc.src[r.Start.Byte:r.End.Byte]), true
 }
 
@@ -244,6 +268,8 @@ func (rc *rangeChecker) expr(e hclsyntax.Expression, reparse bool) {
 		for _, p := range x.Parts {
 			rc.within(p.Range(), r, "template part")
 			if _, lit := p.(*hclsyntax.LiteralValueExpr); lit {
+				rc.slice(p.Range(), "literal part of a template")
+				rc.count["template-literal"]++
 				continue
 			}
 			rc.templatePart(p)
@@ -376,6 +402,20 @@ func checkRanges(c *hx.Case, src []byte, f *hcl.File) map[string]int {
 	body, ok := f.Body.(*hclsyntax.Body)
 	if !ok {
 		return rc.count
+	}
+	skip := 0
+	if bytes.HasPrefix(src, []byte("\xef\xbb\xbf")) {
+		skip = 3
+	}
+	rc.pt = ref.NewPosTable(src, skip)
+	rc.tainted = map[int]bool{}
+	toks, _ := hclsyntax.LexConfig(src, "t.hcl", hcl.InitialPos)
+	for _, tok := range toks {
+		for _, b := range []int{tok.Range.Start.Byte, tok.Range.End.Byte} {
+			if b >= 0 && b <= len(src) && !rc.pt.Boundary[b] {
+				rc.tainted[rc.pt.Line[b]] = true
+			}
+		}
 	}
 	c.Guard("range walk", func() { rc.body(body) })
 	return rc.count
